@@ -295,7 +295,11 @@ CASES = {
     'single_mirror_r4_cw': dict(kind='single', asm=dict(n_ring=4, pitch=0.0018, dpin=0.0014, wire=0.00015, wdir='clockwise'),
                                 transform='mirror'),
     'single_rot_r6': dict(kind='single', asm=dict(n_ring=6, pitch=0.0012, dpin=0.0009, wire=0.0001), transform='rot60'),
+    'single_rot_r3_double_duct_flowgap': dict(kind='single', asm=dict(n_ring=3, pitch=0.0024, dpin=0.0019, wire=0.0002, n_duct=2),
+                                              transform='rot60', gap='flow'),
+    'single_mirror_r2_double_duct_noflowgap': dict(kind='single', asm=dict(n_duct=2), transform='mirror', gap='no_flow'),
     'core7_flow': dict(kind='core', n_pos=7, gap='flow'),
+    'core7_flow_double_duct': dict(kind='core', n_pos=7, gap='flow', double_duct=True),
     'core7_noflow': dict(kind='core', n_pos=7, gap='no_flow'),
     'core7_ductavg': dict(kind='core', n_pos=7, gap='duct_average'),
     'core19_flow': dict(kind='core', n_pos=19, gap='flow'),
@@ -315,7 +319,8 @@ def _metamorphic(name):
         if spec['kind'] == 'single':
             tr = spec['transform']
             kw = dict(spec['asm'])
-            base_p = G.write_problem(os.path.join(wd, 'base'), asms={'a1': kw}, gap_model='none',
+            gapm = spec.get('gap', 'none')
+            base_p = G.write_problem(os.path.join(wd, 'base'), asms={'a1': kw}, gap_model=gapm,
                                      setup_extra='    axial_mesh_size = 0.01\n')
             _, rb = G.build(base_p, sweep=True)
             a0 = rb.assemblies[0]
@@ -325,7 +330,7 @@ def _metamorphic(name):
             tried = []
             for sense in ((1,) if tr == 'mirror' else (1, -1)):
                 perms = _asm_perms(a0, sense, tr)
-                p2 = G.write_problem(os.path.join(wd, f't{sense}'), asms={'a1': kw2}, gap_model='none',
+                p2 = G.write_problem(os.path.join(wd, f't{sense}'), asms={'a1': kw2}, gap_model=gapm,
                                      setup_extra='    axial_mesh_size = 0.01\n')
                 _transform_csv(os.path.join(wd, f't{sense}', 'power_0.csv'), {1: 1}, {1: perms})
                 _, rt = G.build(p2, sweep=True)
@@ -343,6 +348,9 @@ def _metamorphic(name):
         n_pos = spec['n_pos']
         spots = _ring_positions(n_pos)
         types = {'a1': dict(duct_mat='fuel_fixed'), 'b': dict(n_ring=3, pitch=0.0024, dpin=0.0019, wire=0.0002, duct_mat='fuel_fixed')}
+        if spec.get('double_duct'):
+            types = {'a1': dict(duct_mat='fuel_fixed', n_duct=2),
+                     'b': dict(n_ring=3, pitch=0.0024, dpin=0.0019, wire=0.0002, duct_mat='fuel_fixed', n_duct=2)}
         names = ['a1' if (i * 7 + 3) % 5 < 3 else 'b' for i in range(n_pos)]
         flows = [0.2 + 0.013 * ((i * 5) % 11) for i in range(n_pos)]
         base_pos = [(names[i], spots[i][0], spots[i][1], flows[i]) for i in range(n_pos)]
